@@ -852,6 +852,32 @@ def gen_pipe_case(rng, quick):
     return c
 
 
+def ohm_hook(d):
+    """name of the instance attribute through which the description calls the 3x3 inversion routine, found by
+    what the PUBLIC switch setOhmInverseFunction changes (no private name is assumed); None if there is no such
+    attribute"""
+    try:
+        d.setOhmInverseFunction('numpy')
+        a = dict(vars(d))
+        d.setOhmInverseFunction('quick')
+        b = dict(vars(d))
+    except Exception:
+        return None
+    names = [k for k in b if k in a and callable(a[k]) and callable(b[k]) and a[k] != b[k]]
+    return names[0] if len(names) == 1 else None
+
+
+def normals_and_endterm(d, r):
+    """unit normals and 1/beta^3 of the grid points: from the description's own helpers when they exist under
+    their usual names, else from the formulas (which the translator ties to the source)"""
+    phi, th = np.asarray(d.midPhiGrid, dtype=float), np.asarray(d.midThetaGrid, dtype=float)
+    fn, fb = getattr(d, '_n', None), getattr(d, '_beta', None)
+    n = np.array(fn(phi, th)) if callable(fn) else np.array([np.sin(th) * np.cos(phi), np.sin(th) * np.sin(phi), np.cos(th)])
+    beta = np.array(fb(r[0], r[1], r[2], phi, th)) if callable(fb) else \
+        np.sqrt(((r[0] * np.cos(phi)) ** 2 + (r[1] * np.sin(phi)) ** 2) * np.sin(th) ** 2 + (r[2] * np.cos(th)) ** 2)
+    return n, 1 / beta ** 3
+
+
 def run_pipe_impl(c):
     """runs the public / internal methods of the implementation once, observing _ohm_inverse and np.linalg.inv"""
     ef = EF()
@@ -873,15 +899,17 @@ def run_pipe_impl(c):
         d = se.description
         d.midPhiGrid, d.midThetaGrid, d.midWeights = np.array(c['phi']), np.array(c['theta']), np.array(c['w'])
         d.dA = c['dA']
-        d.setOhmInverseFunction('quick' if c['quick_inverse'] else 'numpy')
         rec = {}
-        orig = d._ohm_inverse
+        hook = ohm_hook(d)
+        d.setOhmInverseFunction('quick' if c['quick_inverse'] else 'numpy')
+        if hook is not None:
+            orig = getattr(d, hook)
 
-        def observed(m):
-            out = orig(m)
-            rec['in'], rec['out'] = np.array(m, dtype=float).copy(), np.array(out, dtype=float).copy()
-            return out
-        d._ohm_inverse = observed
+            def observed(m):
+                out = orig(m)
+                rec['in'], rec['out'] = np.array(m, dtype=float).copy(), np.array(out, dtype=float).copy()
+                return out
+            setattr(d, hook, observed)
         se.setRotationMatrix(R)
         se.setRotationPrecipitate(np.array(c['RP']))
         se.setElasticConstants(*c['cM'])
@@ -890,10 +918,17 @@ def run_pipe_impl(c):
         se.setEigenstrain(eps)
         r = np.array(c['r'])
         o['cM4'], o['cP4'] = np.array(se.params.cMatrix_4th), np.array(se.params.cPrec_4th)
-        o['n'] = np.array(d._n(d.midPhiGrid, d.midThetaGrid))
-        o['et'] = np.array(1 / d._beta(r[0], r[1], r[2], d.midPhiGrid, d.midThetaGrid) ** 3)
+        o['n'], o['et'] = normals_and_endterm(d, r)
         o['D'] = np.array(d.Dijkl(r, o['cM4']))
-        o['invohm'], o['ohm'] = rec['in'], rec['out']
+        if 'in' in rec:
+            o['invohm'], o['ohm'] = rec['in'], rec['out']
+        else:
+            # not observable through the public switch: recompute the Ohm term of every grid point here (the stage
+            # "sum over grid points" then still compares the implementation's Dijkl with the model's sum)
+            o['unobserved'] = 'the routine that inverts the Ohm term could not be observed (no instance attribute switches with setOhmInverseFunction)'
+            nP = np.einsum('kn,ln->kln', o['n'], o['n'])
+            o['invohm'] = np.tensordot(o['cM4'], nP, axes=[[1, 2], [0, 1]])
+            o['ohm'] = np.transpose(np.linalg.inv(np.transpose(o['invohm'], (2, 0, 1))), (1, 2, 0))
         o['S'] = np.array(d.Sijmn(o['D']))
         o['V'] = float(4 * np.pi / 3 * np.prod(r))
         o['E4'] = float(d.strainEnergyEllipsoid(r))
@@ -904,13 +939,17 @@ def run_pipe_impl(c):
         with InvRecorder() as ir:
             o['B2'] = float(d.strainEnergyBohm2ndRank(r))
         o['b2'] = [x for x in ir.calls if x[0].shape == (6, 6)]
-        A = d._multiply(o['cP4'] - o['cM4'], o['S']) + o['cM4']
+        A = np.einsum('ijkl,klmn->ijmn', o['cP4'] - o['cM4'], o['S']) + o['cM4']       # any tensor with the minor symmetries will do
         o['A'], o['iA'] = np.array(A), np.array(ef.invert4rankTensor(A))
         # Khachaturyan with the (unrotated) cubic constants
         s2 = StrainEnergy('sphere')
         s2.setElasticConstants(*c['cM'])
         s2.setEigenstrain(eps)
-        o['kh'] = float(s2.description._Khachaturyan(c['I1'], c['I2'], r))
+        kh = getattr(s2.description, '_Khachaturyan', None)
+        if callable(kh):
+            o['kh'], o['kh_I'] = float(kh(c['I1'], c['I2'], r)), (c['I1'], c['I2'])
+        else:                                   # public path: the sphere description uses I1 = 1/15, I2 = 1/105
+            o['kh'], o['kh_I'] = float(s2.compute(r)), (1 / 15, 1 / 105)
         o['kh_e00'] = float(eps[0, 0])
         o['ecC'] = np.array(ef.elasticConstantToC(*c['cM']))
     except Exception as e:
@@ -947,7 +986,7 @@ def pipe_terms(c, o):
                                                                      qlit(o['E4']), qlit(o['E2']), qlit(o['B4']), qlit(o['B2']),
                                                                      ql2(o['b4'][0][0]), ql2(o['b4'][0][1]), ql2(o['b2'][0][0]), ql2(o['b2'][0][1])),
         'chk_invert4 %s %s %s' % (RT, fl(o['A']), fl(o['iA'])),
-        'chk_khach %s %s %s %s %s %s %s %s %s %s %s' % (RT, qlit(c['cM'][0]), qlit(c['cM'][1]), qlit(c['cM'][2]), qlit(o['kh_e00']), qlit(c['I1']), qlit(c['I2']),
+        'chk_khach %s %s %s %s %s %s %s %s %s %s %s' % (RT, qlit(c['cM'][0]), qlit(c['cM'][1]), qlit(c['cM'][2]), qlit(o['kh_e00']), qlit(o['kh_I'][0]), qlit(o['kh_I'][1]),
                                                         qlit(np.pi), q3(c['r']), qlit(o['kh']), fl(o['ecC'])),
         ops,
     ]
@@ -1038,6 +1077,8 @@ def correspondence(ctx, quick):
         if o['err']:
             dis.append(('implementation-error', c, 'implementation raised %s' % o['err']))
             continue
+        if o.get('unobserved'):
+            ctx.notes['ohm_routine_unobserved'] = o['unobserved']
         tt = pipe_terms(c, o)
         terms += tt
         owner.append((c, len(tt)))
